@@ -21,7 +21,8 @@ class LimitedStringIO(StringIO):
 
     def write(self, __s: str) -> int:  # noqa: D102
         if __s:
-            self.size += len(__s.encode("utf-8"))
+            # A lone surrogate has no UTF-8 encoding. Count it as it would be written.
+            self.size += len(__s.encode("utf-8", errors="surrogatepass"))
             if self.size > self.limit:
                 raise OutputStreamLimitError("output stream limit reached", token=None)
         return super().write(__s)
